@@ -12,7 +12,7 @@ from . import interp_check as IC
 FUZZ_VEC = ['sv_4_ntr_u8_amc', 'sv_3_ntr_u32_std', 'sv_2_tr_u8_re', 'vec_0_tr_u32_re', 'vec_0_ntr_u32_std', 'sv_8_tr_u64_std', 'fcv_6_ntr', 'sv_2_tc3_u32_amc',
             'sv_3_ntr_u16_re', 'sv_1_ntr_i16_std', 'vec_0_tr_i8_std', 'sv_250_i32_u8_std']
 FUZZ_FS = ['fs_stateful_amcvec_ntr_amc', 'fs_coarse_stdvec_ntr_std', 'fs_less_sv4_ntr_std', 'fs_greater_fcv24_tr', 'fs_transparent_amcvec_tr_re']
-FUZZ_SS = ['ss_3_less_stdset_ntr_std', 'ss_2_stateful_flatvec_ntr_std', 'ss_1_coarse_stdset_tr_std', 'ss_5_greater_flatsv_ntr_amc']
+FUZZ_SS = ['ss_3_less_stdset_ntr_std', 'ss_2_stateful_flatvec_ntr_std', 'ss_1_coarse_stdset_tr_std', 'ss_5_greater_flatsv_ntr_amc', 'ss_3_greater_flatstd_ntr_std']
 
 
 def fuzz_unit(cfg):
